@@ -115,8 +115,10 @@ def r1_fields(ctx, repo):
                 if rr and text(rr[0].value).endswith(".id"):
                     ok = True
     uses = sum(1 for c in calls_in(td) if (access_path(c.func) or "").endswith("._replace_individual_id"))
-    ctx.check(ok and uses >= 3, "R1", "Individual._replace_individual_id", where(mod, helper or td),
-              "nested Individual objects (parents, children, feature values) are replaced by their ids before encoding (%d uses)" % uses)
+    ctx.check3(True if (ok and uses >= 3) else (False if (ok and uses < 3) else None), "R1", "Individual._replace_individual_id", where(mod, helper or td),
+               "nested Individual objects (parents, children, feature values) are replaced by their ids before encoding (%d uses)" % uses,
+               "only %d of the three places (parents, children, feature values) replace nested individuals by their ids: json.dumps fails on the others" % uses,
+               "id replacement helper not recognised")
 
 
 def parse_sql(sql):
@@ -278,7 +280,11 @@ def r3_read(ctx, repo, cls):
                 m = re.search(r"SELECT \* FROM (\w+)", sql, re.I)
                 if m:
                     tables.add(m.group(1))
-    ctx.check(tables >= {"main", "parameters", "costs", "individuals"}, "R3", C, where(mod, fn), "selects the tables %s" % sorted(tables), key="tables")
+    n_exec = sum(1 for c in calls_in(fn) if isinstance(c.func, ast.Attribute) and c.func.attr == "execute")
+    need = {"main", "parameters", "costs", "individuals"}
+    tstate = True if tables >= need else (False if n_exec == len(tables) else None)    # every execute was understood, yet a table is not read
+    ctx.check3(tstate, "R3", C, where(mod, fn), "selects the tables %s" % sorted(tables), "the reader never selects the table(s) %s: that part of the stored problem is not restored" % sorted(need - tables),
+               "some SELECT statements are not recognised", key="tables")
     # definitions are restored in the order the rows come back: SELECT without ORDER BY yields insertion (rowid) order
     # only for rowid tables
     for k, v in cls.class_attrs.items():
@@ -294,22 +300,29 @@ def r3_read(ctx, repo, cls):
     rebuild = [c for c in calls_in(fn) if (access_path(c.func) or "").endswith("Individual.from_dict")]
     ok = bool(rebuild) and text(rebuild[0].args[0]).startswith("json.loads(") and any(
         (access_path(c.func) or "").endswith(".problem.individuals.append") for c in calls_in(fn))
-    ctx.check(ok, "R3", C, where(mod, fn), "individuals rebuilt through Individual.from_dict(json.loads(payload)) and appended to problem.individuals", key="rebuild")
+    ctx.check3(True if ok else None, "R3", C, where(mod, fn), "individuals rebuilt through Individual.from_dict(json.loads(payload)) and appended to problem.individuals",
+               unknown_detail="reconstruction of the individuals not recognised", key="rebuild")
     # problem definition: written and read back
     cs = cls.methods.get("_create_structure")
     wrote = text(cs) if cs else ""
     okw = ".problem.name" in wrote and ".problem.description" in wrote and "json.dumps(parameter)" in wrote and "json.dumps(cost)" in wrote
     rd = text(fn)
     okr = ".problem.name = " in rd and ".problem.parameters.append(" in rd and ".problem.costs.append(" in rd
-    ctx.check(okw and okr, "R3", "SqliteDataStore(problem definition)", where(mod, cs or fn), "name/description/parameters/costs written by _create_structure and restored by read_from_datastore", key="problem-definition")
+    ctx.check3(True if (okw and okr) else None, "R3", "SqliteDataStore(problem definition)", where(mod, cs or fn), "name/description/parameters/costs written by _create_structure and restored by read_from_datastore",
+               unknown_detail="writer/reader of the problem definition not recognised", key="problem-definition")
     pv = repo.cls("ProblemViewDataStore", "problem")
     init = pv.methods.get("__init__")
-    ok = False
+    vstate, vmode = None, None
     for c in calls_in(init):
         if (access_path(c.func) or "") == "SqliteDataStore":
             md = [k.value for k in c.keywords if k.arg == "mode"]
-            ok = bool(md) and is_const(md[0]) and const_value(md[0]) == "read"
-    ctx.check(ok, "R3", "ProblemViewDataStore.__init__", where(pv.module, init), "the view opens the store in read mode", key="view-mode")
+            if md and is_const(md[0]):
+                vmode = const_value(md[0])
+                vstate = vmode == "read"
+            elif not md and len(c.args) < 3:
+                vmode, vstate = "write (the default)", False
+    ctx.check3(vstate, "R3", "ProblemViewDataStore.__init__", where(pv.module, init), "the view opens the store in read mode",
+               "the read-only view opens the store in mode %r" % (vmode,), "store construction not recognised", key="view-mode")
 
 
 def r4_runs(ctx, repo):
